@@ -33,6 +33,7 @@ type connRec struct {
 	d      mangos.Dialer
 	l      mangos.Listener
 	url    string // the address that was dialed = l.Address()
+	dialed string // handler mode (handler.go): the address that was dialed, where it is not l.Address()
 	pa, pb *pipeRec
 	tls12  bool
 }
@@ -117,8 +118,12 @@ func (c *caseCtx) checkConn(cn *connRec, when string) {
 	pa, pb := cn.pa, cn.pb
 
 	// 1. where the pipes come from
-	if got := pa.p.Address(); got != cn.url || cn.d.Address() != cn.url {
-		c.vs.add("fail", c.dsig("address", "dialed"), "%v (%s): Address() = %q, Dialer.Address() = %q, the dialed address is %q", pa, when, got, cn.d.Address(), cn.url)
+	dialed := cn.url
+	if cn.dialed != "" {
+		dialed = cn.dialed
+	}
+	if got := pa.p.Address(); got != dialed || cn.d.Address() != dialed {
+		c.vs.add("fail", c.dsig("address", "dialed"), "%v (%s): Address() = %q, Dialer.Address() = %q, the dialed address is %q", pa, when, got, cn.d.Address(), dialed)
 	}
 	if got := pb.p.Address(); got != cn.l.Address() {
 		c.vs.add("fail", c.dsig("address", "accepted"), "%v (%s): Address() = %q, the listener that accepted it has Address() %q", pb, when, got, cn.l.Address())
@@ -143,10 +148,10 @@ func (c *caseCtx) checkConn(cn *connRec, when string) {
 	lb, ok3 := getAddr(c, pb, "accepted", mangos.OptionLocalAddr)
 	rb, ok4 := getAddr(c, pb, "accepted", mangos.OptionRemoteAddr)
 	if ok1 && ok2 && ok3 && ok4 {
-		all := fmt.Sprintf("dialed pipe local=%q remote=%q, accepted pipe local=%q remote=%q, address %q", la, ra, lb, rb, cn.url)
+		all := fmt.Sprintf("dialed pipe local=%q remote=%q, accepted pipe local=%q remote=%q, address %q", la, ra, lb, rb, dialed)
 		switch {
 		case t.tcp:
-			hp := hostPort(cn.url)
+			hp := hostPort(dialed)
 			if ra.String() != hp {
 				c.vs.add("fail", c.dsig("remote-addr", "dialed"), "%v (%s): REMOTE-ADDR is not the listener's host:port: %s", pa, when, all)
 			}
